@@ -83,7 +83,7 @@ Damages == {"none", "lenPastEof", "offPastEof", "offAtEof", "memberPastEof", "tr
 ZForms == {[hdr |-> h, split |-> sp] : h \in ZlibHeaders, sp \in BOOLEAN}
 WoffBase == [zform |-> ZForm0, ext |-> "none", real |-> FALSE]
 WoffVariants == {[zform |-> zf, ext |-> "none", real |-> FALSE] : zf \in ZForms \ {ZForm0}}
-                \cup {[zform |-> ZForm0, ext |-> e, real |-> r] : e \in {"meta", "metapriv"}, r \in BOOLEAN}
+                \cup {[zform |-> ZForm0, ext |-> e, real |-> r] : e \in {"meta", "metapriv", "priv"}, r \in BOOLEAN}
                 \cup {[zform |-> ZForm0, ext |-> "none", real |-> TRUE]}
 
 \* The universe of cases, as three families.  Init draws a case through nested quantifiers instead of
